@@ -353,6 +353,17 @@ def verdicts (st : DState) (op : String) (args : List String) (goRes : String) :
           if !Spec.shapeOK f then [] else
           if back == ["ERR"] then [("C01", "decoder-refuses-own-encoding")]
           else if " ".intercalate back == fmtFrame (Spec.wire f) then [] else [("C01", "roundtrip-differs")]
+    | "phytextrt", toks =>
+      match parseArgs toks frame with
+      | none => []
+      | some f =>
+        match res with
+        | none => if Spec.frameValid f then [("C01", "encoder-refuses-spec-valid-frame")] else []
+        | some out =>
+          let (_, back) := splitBar out
+          if !Spec.shapeOK f then [] else
+          if back == ["ERR"] then [("C01", "text-form-of-own-encoding-refused")]
+          else if " ".intercalate back == fmtFrame (Spec.wire f) then [] else [("C01", "text-roundtrip-differs")]
     | "phycanon", [h] =>
       match unhx h, res with
       | some bs, some out =>
